@@ -307,9 +307,11 @@ theorem C15_string_roundtrip (H : Bytes → Bytes) (hH : ∀ x, 4 ≤ (H x).leng
 
 /-! ## embedded in a stored bid
 
-The trader database model of property C10 (`Pool.C10`, tag store) treats the ticket of a bid as the byte
-blob `SerializeTicket` produced and proves that the whole order bucket reads back as written
-(`Pool.C10.order_roundtrip`).  Composed with `C15_ticket_roundtrip`: -/
+The trader database model of property C10 (`Pool.C10`, tag store) keeps the ticket of a bid as its
+serialised bytes, decodes them with THIS model (`Pool.C10.readTicket` = `deserializeTicket (repoCfg …)` then
+`serializeTicket`) when the order is loaded, and asks in `Order.WF` that the blob be canonical
+(`ticketCanonical`).  `ticket_roundtrip` discharges exactly that for the serialisation of any well-formed
+ticket, so the whole order bucket reads back as written (`Pool.C10.order_roundtrip`): -/
 
 /-- **embedded_in_bid_roundtrip**: store any well-formed bid carrying the serialisation of a well-formed
 ticket (clientdb `SubmitOrder` / `updateOrder`: keys `order`, `order-min-units-match`, `order-tlv`,
